@@ -749,6 +749,11 @@ class Exec:
             return p, (t if o == "Is" else z3.Not(t))
         if o in ("Eq", "NotEq"):
             t = eq(a, b)
+            from .values import filter_uniqueness
+            lem = filter_uniqueness(a, b)
+            if lem is not None:
+                self.trace["assumed"].add("engine lemma: uniqueness of the order-preserving enumeration of a filter (paper proof)")
+                self.bg_local(p, [lem])
             return p, (t if o == "Eq" else z3.Not(t))
         if o in ("In", "NotIn"):
             t = self.contains(b, a, p, node)
@@ -1014,7 +1019,9 @@ class Exec:
                 sub.ev(n.elt, q)
             for o in sub.outcomes:
                 self.outcomes.append(o)  # existence of such an index: cond mentions free i (existential)
-        return Lst(n=seq.n, at=at)
+        # a map over a filtered list keeps the filter's index structure (used by the uniqueness lemma in values.eq)
+        keep = seq.tag if isinstance(seq.tag, tuple) and seq.tag[0] == "filter" else None
+        return Lst(n=seq.n, at=at, tag=keep)
 
     def as_list(self, v, p, node) -> Lst:
         if isinstance(v, Opt):
